@@ -475,7 +475,9 @@ func cursorKept(j *jobCtx, u Universe, path []Call) {
 		if t.kind == "priorityqueue" {
 			put, take = "Enqueue", "Dequeue"
 		}
-		muts = append(muts, []Call{{Op: take}, {Op: put, Vs: []int{1}}}, []Call{{Op: put, Vs: []int{1}}}, []Call{{Op: put, Vs: []int{99}}, {Op: take}})
+		for rep := 0; rep < 2; rep++ {
+			muts = append(muts, []Call{{Op: take}, {Op: put, Vs: []int{1}}}, []Call{{Op: put, Vs: []int{1}}}, []Call{{Op: put, Vs: []int{99}}, {Op: take}})
+		}
 	}
 	rewinds := []string{"Begin", "First", "Last", "End"}
 	for mi, mut := range muts {
@@ -534,7 +536,11 @@ func cursorKept(j *jobCtx, u Universe, path []Call) {
 		}
 		// move off the initial state: a few steps forward (different depths for different scenarios), sometimes to the far end
 		ok := true
-		for s := 0; s < 1+mi%(len(seq)+2) && ok; s++ {
+		pre := 1 + (mi*7+3)%(len(seq)+2)
+		if pre > 24 {
+			pre = 9 + (mi*7)%16
+		}
+		for s := 0; s < pre && ok; s++ {
 			ok = do(curCall{op: "Next"})
 		}
 		if mi%3 == 2 && cur.reverse && ok {
@@ -567,9 +573,14 @@ func cursorKept(j *jobCtx, u Universe, path []Call) {
 		if !do(curCall{op: rw}) {
 			continue
 		}
-		steps := []string{"Next", "Next", "Next"}
+		// at least as far as the iterator had been before the modification, in the direction of the rewind
+		dir := "Next"
 		if rw == "Last" || rw == "End" {
-			steps = []string{"Prev", "Prev", "Prev"}
+			dir = "Prev"
+		}
+		var steps []string
+		for s := 0; s < pre+2 || s < 3; s++ {
+			steps = append(steps, dir)
 		}
 		if cur.reverse {
 			steps = append(steps, "First", "Next", "Last", "Prev", "End", "Prev", "Begin", "Next")
@@ -686,7 +697,7 @@ func jobCursor(j *jobCtx) {
 			if t.kind == "priorityqueue" {
 				put = "Enqueue"
 			}
-			for i := 0; i < 11; i++ { // equal priorities: three or more ties on every level
+			for i := 0; i < 17; i++ { // equal priorities: three or more ties on every level; a level of eight
 				big = append(big, Call{Op: put, Vs: []int{10*(1+i/8) + i%8}})
 			}
 		case *setInst:
@@ -736,6 +747,7 @@ func jobCursor(j *jobCtx) {
 						cursorWalk(j, x, 4000)
 					}
 					cursorWalk(j, x, 120)
+					cursorKept(j, u, hp)
 				}
 			}
 		}
@@ -755,7 +767,7 @@ func jobCursor(j *jobCtx) {
 				cursorWalk(j, x, 400)
 			}
 			// kept iterators: modified container, rewound iterator (a sample of the states)
-			if pi%keptStride == 0 {
+			if pi%keptStride == 0 || (big != nil && pi == len(paths)-1) {
 				cursorKept(j, u, p)
 			}
 			// IteratorAt(node): a cursor that starts on an element (red-black tree only)
